@@ -198,7 +198,8 @@ Definition c05_start : world :=
 (** Two markers.  Denom 0: a fixed-supply restricted marker created active over 7 pre-existing
     coins; coins are withdrawn, minted, burned.  Denom 1: a floating coin marker whose coins are
     withdrawn INTO marker 0's account (user 1 has deposit there).  MaxSupply is lowered to 50 in
-    mid-history: further mints fail, nothing else changes.  User 2 lets user 1 move 30 of its
+    mid-history (with the deprecated max_total_supply far above it: it is not consulted): further
+    mints fail, nothing else changes.  User 2 lets user 1 move 30 of its
     coins by an authz grant (useless until user 4 holds TRANSFER and DEPOSIT); the grant
     is used up and deleted.  Cancelling marker 0 is refused while coins are out and accepted after
     they came back; deleting is refused while marker 1's coins lie in the account (its
@@ -209,7 +210,7 @@ Definition c05_life : list mop :=
    MOn 1%N (OAddFinAct 500 false true Coin false (Some 1%N) [(1%N, 63%N)]);
    MOn 0%N (OWithdraw 1%N 2%N 40); MOn 0%N (OMint 1%N 10); MOn 0%N (OBurn 1%N 5);
    MOn 1%N (OWithdraw 1%N (escrow 0%N) 25);
-   MSetParams GOV 50 true].
+   MSetParams GOV 50 100000 true].
 Definition c05_recall : list mop :=
   [MAuthzGrant 2%N 4%N [(0%N, 30)] [];
    MTransfer 0%N 4%N 2%N (escrow 0%N) 30;
@@ -283,7 +284,7 @@ Proof. vm_compute. split; reflexivity. Qed.
     maximum (the [msupply m1] term of [C05_active_supply_bound] is needed). *)
 Example C05_reactivation_ignores_max :
   let W1 := mrun c05_empty [MOn 0%N (OAddFinAct 800 false true Coin false (Some 1%N) [(1%N, 63%N)]);
-                            MOn 0%N (OBurn 1%N 700); MSetParams GOV 200 true] in
+                            MOn 0%N (OBurn 1%N 700); MSetParams GOV 200 5000 true] in
   c_supply (cells W1 0%N) = 100 /\ w_max W1 = 200 /\
   snd (mstep W1 (MOn 0%N (OMint 1%N 101))) = false /\
   let W2 := fst (mstep W1 (MOn 0%N (OGovChangeStatus GOV Active))) in
